@@ -19,6 +19,7 @@ pub fn common_prefix_char_size(left: &str, right: &str) -> u32 {
     let mut right_chars = right.chars();
     let mut was_escape = false;
     let mut group_level = 0;
+    let mut in_class = false;
     let mut i = 0;
 
     loop {
@@ -29,7 +30,14 @@ pub fn common_prefix_char_size(left: &str, right: &str) -> u32 {
             return prefix_length;
         }
 
-        if left_char == '(' && !was_escape {
+        // Inside a character class (`[)]`, `[^(]+`) parentheses are literals, not group delimiters
+        if in_class {
+            if left_char == ']' && !was_escape {
+                in_class = false;
+            }
+        } else if left_char == '[' && !was_escape {
+            in_class = true;
+        } else if left_char == '(' && !was_escape {
             group_level += 1;
         } else if left_char == ')' && !was_escape {
             group_level -= 1;
@@ -43,7 +51,7 @@ pub fn common_prefix_char_size(left: &str, right: &str) -> u32 {
 
         i += 1;
 
-        if group_level == 0 && !was_escape {
+        if group_level == 0 && !was_escape && !in_class {
             prefix_length = i;
         }
     }
